@@ -22,6 +22,8 @@ def std_case(rnd, seed, *, kinds=("gauss", "bimodal", "expedge", "corr"), scenar
         cfg["reflective"] = [0]
     case = dict(seed=seed, target=tgt, cfg=cfg, n_total=rnd.choice(list(n_totals)), scenario=rnd.choice(list(scenarios)))
     case.update(gen.gen_eval(rnd, blobs=bool(nb), modes=evals))
+    if rnd.random() < 0.2:
+        case["progress"] = True  # the progress-bar code paths (update_stats in every stage and MCMC step) take part
     if case["scenario"] == "crash_resume":
         case["save_every"] = rnd.choice([1, 2, 3])
         case["like_fault"] = dict(kind="crash.process", batch=rnd.randrange(3, 40))
